@@ -54,6 +54,9 @@ type Action struct {
 	// ByValue (reply, error): the parameters are handed over as a json.RawMessage
 	// value instead of a pointer to one.
 	ByValue bool `json:"by_value,omitempty"`
+	// KeepFlag (reply): the handler does not touch Call.Continues before this
+	// attempt: the flag is what the previous action left it (a retry)
+	KeepFlag bool `json:"keep_flag,omitempty"`
 }
 
 // Script is what the test dispatcher does for one call.
@@ -213,7 +216,9 @@ func (d *testIface) VarlinkDispatch(ctx context.Context, c varlink.Call, methodn
 		}
 		switch a.Op {
 		case "reply":
-			c.Continues = a.Continues
+			if !a.KeepFlag {
+				c.Continues = a.Continues
+			}
 			var p interface{} = rawOrNil(a.Params)
 			if a.ByValue && a.Params != "" {
 				p = json.RawMessage(a.Params)
